@@ -12,7 +12,7 @@ use serial_core::{BaudRate, CharSize, ErrorKind, FlowControl, Parity, PortSettin
 use crate::engine::{catch, par_range, Ctx, Stats};
 use crate::io::port::{PortState, TestPort};
 
-pub const RULE: &str = "the full product of prior port settings representable by PortSettings (11 standard baud rates + BaudOther(0), BaudOther(19200), BaudOther(250000); 4 character sizes; 3 parities; 2 stop-bit settings; 3 flow controls = 1008 combinations) x entry point {configure_port with 4 timeouts, SerialSignBus::try_new, Odk::try_new} x injected failure {none, read_settings, set_baud_rate, write_settings, set_timeout} x {permanent, only the first such call} x 3 error kinds, enumerated exhaustively on an instrumented SerialDevice. Oracle: on success the final settings are exactly 19200/8/N/1/none and a timeout was applied (the caller's value for configure_port, any non-zero value for the constructors); with a failure injected the call returns Err of the injected kind. Non-trivial = the prior settings differ from the target in at least one field, or a failure is injected; distinct by construction";
+pub const RULE: &str = "the full product of prior port settings representable by PortSettings (11 standard baud rates + BaudOther(0), BaudOther(19200), BaudOther(250000); 4 character sizes; 3 parities; 2 stop-bit settings; 3 flow controls = 1008 combinations) x entry point {configure_port with 4 timeouts, SerialSignBus::try_new, Odk::try_new} x injected failure {none, read_settings, set_baud_rate, write_settings, set_timeout} x {permanent, only the first such call} x 6 error kinds (incl. Interrupted / WouldBlock / TimedOut), also with a settings object that reports no baud rate; enumerated exhaustively on an instrumented SerialDevice. Oracle: on success the final settings are exactly 19200/8/N/1/none and a timeout was applied (the caller's value for configure_port, any non-zero value for the constructors); whenever the port actually refused a call the entry point returns Err of that kind (a failure point that the implementation never reaches counts as no failure). Non-trivial = the prior settings differ from the target in at least one field, or a failure is injected; distinct by construction";
 pub const ASSUMPTIONS: &[&str] = &["the instrumented SerialDevice (io/port.rs) records settings and timeouts faithfully; serial-core's blanket SerialPort::reconfigure is the code path flipdot uses"];
 
 const BAUDS: [BaudRate; 14] = [
@@ -35,7 +35,14 @@ const SIZES: [CharSize; 4] = [CharSize::Bits5, CharSize::Bits6, CharSize::Bits7,
 const PARITIES: [Parity; 3] = [Parity::ParityNone, Parity::ParityOdd, Parity::ParityEven];
 const STOPS: [StopBits; 2] = [StopBits::Stop1, StopBits::Stop2];
 const FLOWS: [FlowControl; 3] = [FlowControl::FlowNone, FlowControl::FlowSoftware, FlowControl::FlowHardware];
-const KINDS: [ErrorKind; 3] = [ErrorKind::NoDevice, ErrorKind::InvalidInput, ErrorKind::Io(std::io::ErrorKind::PermissionDenied)];
+const KINDS: [ErrorKind; 6] = [
+    ErrorKind::NoDevice,
+    ErrorKind::InvalidInput,
+    ErrorKind::Io(std::io::ErrorKind::PermissionDenied),
+    ErrorKind::Io(std::io::ErrorKind::Interrupted),
+    ErrorKind::Io(std::io::ErrorKind::WouldBlock),
+    ErrorKind::Io(std::io::ErrorKind::TimedOut),
+];
 const TIMEOUTS_MS: [u64; 4] = [1, 250, 5_000, 3_600_000];
 
 #[derive(Serialize, Deserialize, Debug, Clone, PartialEq, Eq)]
@@ -51,6 +58,9 @@ pub struct PortCase {
     /// false = the port refuses every time; true = only the first such call fails (a transient fault)
     #[serde(default)]
     pub transient: bool,
+    /// the port's settings object reports no baud rate (split input/output speeds); the prior speed is then what `prior[0]` says
+    #[serde(default)]
+    pub hide_baud: bool,
 }
 
 struct NullBus;
@@ -78,7 +88,7 @@ pub fn check_port(c: &PortCase, st: &mut Stats) -> Result<(), String> {
         stop_bits: STOPS[c.prior[3] % 2],
         flow_control: FLOWS[c.prior[4] % 3],
     };
-    let kind = KINDS[c.kind % 3];
+    let kind = KINDS[c.kind % 6];
     let mut state = PortState::new(vec![]);
     state.settings = prior;
     match c.fail {
@@ -91,6 +101,7 @@ pub fn check_port(c: &PortCase, st: &mut Stats) -> Result<(), String> {
     if c.transient {
         state.fail_budget = Some(1);
     }
+    state.hide_baud = c.hide_baud;
     let port = TestPort::with_state(state);
     let h = port.handle();
     let timeout = Duration::from_millis(c.timeout_ms);
@@ -106,7 +117,9 @@ pub fn check_port(c: &PortCase, st: &mut Stats) -> Result<(), String> {
     .map_err(|p| format!("{name} panicked: {p}"))?;
     st.eval();
     let s = h.borrow();
-    if c.fail == 0 {
+    // a failure counts only if the port was actually asked and refused (an implementation that skips a setter
+    // because the value is already right has not been refused anything)
+    if s.failures_fired == 0 {
         if let Err(e) = result {
             return Err(format!("{name} failed on a cooperative port with prior settings {prior:?}: {e}"));
         }
@@ -164,13 +177,16 @@ pub fn run(ctx: &Ctx) {
             let timeouts: &[u64] = if entry == 0 { &TIMEOUTS_MS } else { &[0] };
             for &timeout_ms in timeouts {
                 for fail in 0..5u8 {
-                    let kinds: &[usize] = if fail == 0 { &[0] } else { &[0, 1, 2] };
+                    let kinds: &[usize] = if fail == 0 { &[0] } else { &[0, 1, 2, 3, 4, 5] };
                     for &kind in kinds {
-                        for transient in [false, true] {
+                        for (transient, hide_baud) in [(false, false), (true, false), (false, true)] {
                             if transient && fail == 0 {
                                 continue;
                             }
-                            let c = PortCase { prior, entry, timeout_ms, fail, kind, transient };
+                            if hide_baud && (kind != 0 || timeout_ms > 250) {
+                                continue;
+                            }
+                            let c = PortCase { prior, entry, timeout_ms, fail, kind, transient, hide_baud };
                             check_port(&c, st).map_err(|m| (serde_json::to_value(&c).unwrap(), m))?;
                             n += 1;
                             if !is_target || fail != 0 {
